@@ -46,7 +46,11 @@ fn timeout_count(max_choice: u8) {
                 result = Some(x);
                 break;
             }
-            Poll::Pending => {}
+            Poll::Pending => {
+                // never hanging: a pending request always has a wake-up registered for a deadline
+                // that is still ahead (nothing else will poll it again if every response is lost)
+                assert!(last_wake_at() > now);
+            }
         }
         if let Some(sf) = tx.next_sendable_frame() {
             let res = sf.send_blocking(|b| {
@@ -176,8 +180,10 @@ pub fn c06_poll_step() {
             } else if r == 0 {
                 assert!(matches!(res, Poll::Ready(Err(Error::Timeout(TimeoutError::Pdu)))));
             } else {
-                // retry: still pending, frame offered to TX again, contents untouched
+                // retry: still pending, frame offered to TX again, contents untouched, and a wake-up
+                // for the NEW deadline is registered (otherwise nothing ever polls the request again)
                 assert!(res.is_pending());
+                assert!(last_wake_at() > 5000);
                 assert!(post.state == FrameState::Sendable);
                 assert!(post.first_pdu == pre.first_pdu && post.payload_len == pre.payload_len);
             }
